@@ -514,6 +514,71 @@ def build_items(quick):
     return [(i,) + it for i, it in enumerate(items)], small, big
 
 
+# ---------------------------------------------------------------------------
+# key shapes: a media key is 32 arbitrary bytes; keys whose first / last byte is ASCII white space, a base64 or hex
+# character, NUL, DEL or a high byte, and keys that are entirely printable text, are keys like any other
+SHAPE_EDGE_BYTES = (0x00, 0x09, 0x0A, 0x0B, 0x0C, 0x0D, 0x20, 0x2B, 0x2F, 0x30, 0x3D, 0x41, 0x61, 0x7F, 0x80, 0xA0, 0xFF)
+
+
+def shape_keys():
+    body = hashlib.sha256(b"vf/c15/shape").digest()
+    out = []
+    for b in SHAPE_EDGE_BYTES:
+        out.append(("first=%02x" % b, bytes([b]) + body[1:]))
+        out.append(("last=%02x" % b, body[:31] + bytes([b])))
+        out.append(("both=%02x" % b, bytes([b]) + body[1:31] + bytes([b])))
+    out.append(("all-spaces", b" " * 32))
+    out.append(("printable-base64-like", b"QUJDREVGR0hJSktMTU5PUFFSU1RVVldY"))
+    out.append(("printable-hex-like", b"00112233445566778899aabbccddeeff"))
+    out.append(("newline-terminated-text", b"0123456789abcdef0123456789abcde\n"))
+    return out
+
+
+def check_key_shapes(kind):
+    vs = []
+    calls = 0
+    info = rm.INFO[kind]
+    keys = shape_keys()
+    mc = MediaCipher()
+    blobs = {}
+    for name, key in keys:
+        for n in (0, 1, 16, 33):
+            p = make_plain("ramp", n)
+            case = {"key_shape": name, "kind": kind, "length": n}
+            ref_ct = rm.encrypt(p, key, kind)
+            try:
+                calls += 2
+                ct = bytes(mc.encrypt(p, key, info))
+                back = mc.decrypt(ref_ct, key, info)
+            except Exception as e:
+                vs.append(("C15:key-shape:raises", "key %s: %s" % (name, _exc(e)), case, _exc(e)))
+                continue
+            if ct != ref_ct:
+                vs.append(("C15:key-shape:ciphertext-differs-from-reference", "with a media key of shape %s the ciphertext differs from "
+                           "the reference cipher's" % name, case, None))
+            if back != p:
+                vs.append(("C15:key-shape:reference-blob-decrypts-differently", "key shape %s: the reference blob decrypts to other data" % name, case, None))
+            if n == 16:
+                blobs[name] = (key, ref_ct, p)
+    # every other shaped key is a wrong key for a blob
+    names = [k for k in blobs]
+    for a in names:
+        key_a, blob, p = blobs[a]
+        for b in names:
+            key_b = blobs[b][0]
+            if key_b == key_a:
+                continue
+            calls += 1
+            try:
+                r = mc.decrypt(blob, key_b, info)
+            except Exception:
+                continue
+            vs.append(("C15:key-shape:wrong-key-accepted", "blob made with key %s was decrypted with key %s without an error" % (a, b),
+                       {"key_shape": a, "other_key_shape": b, "kind": kind}, {"same_plaintext": r == p}))
+            break
+    return kind, vs, calls
+
+
 def run(ctx):
     items, small, big = build_items(ctx.quick)
     ka = known_answer(ctx)
@@ -537,6 +602,12 @@ def run(ctx):
         if n > 0 and outcome[1] not in ("-", "encrypt-raises") and t > 0:
             nontrivial.add(it[1:5])
         ctx.add_violations(vs)
+    shape_calls = 0
+    for kind, vs, c in ctx.pmap(check_key_shapes, list(rm.KINDS), chunksize=1):
+        shape_calls += c
+        ctx.add_violations(sorted(vs, key=lambda v: v[0]))
+    calls += shape_calls
+    ctx.coverage["key_shape_calls"] = shape_calls
     sitems = build_sequence_items(ctx.quick)
     sres = ctx.pmap(check_sequences, shuffled(sitems, ctx.seed, "c15seq"), chunksize=2)
     sres.sort(key=lambda r: r[0])
@@ -593,6 +664,8 @@ def replay(ctx, case):
     if "known_answer" in case:
         known_answer(ctx)
         return []
+    if "key_shape" in case:
+        return check_key_shapes(case["kind"])[1]
     if "sequence" in case:
         vs = []
         run_sequence(case["mode"], tuple(tuple(st) for st in case["sequence"]), vs, {})
